@@ -1,6 +1,8 @@
 package tokenizers
 
 import (
+	"strings"
+
 	"github.com/pip-services3-gox/pip-services3-expressions-gox/tokenizers"
 	"github.com/pip-services3-gox/pip-services3-expressions-gox/tokenizers/generic"
 )
@@ -9,6 +11,8 @@ type MustacheTokenizer struct {
 	*tokenizers.AbstractTokenizer
 	special      bool
 	specialState tokenizers.ITokenizerState
+	commentAhead bool // the opening braces just read are followed by '!' (blanks aside)
+	comment      bool // that '!' was delivered: the comment body is read verbatim next
 }
 
 func NewMustacheTokenizer() *MustacheTokenizer {
@@ -62,6 +66,8 @@ func (c *MustacheTokenizer) ReadNextToken() *tokenizers.Token {
 	if c.NextTokenValue == nil && c.LastTokenType == tokenizers.Unknown &&
 		c.Scanner.Line() == 1 && c.Scanner.Column() == 0 {
 		c.special = true
+		c.commentAhead = false
+		c.comment = false
 	}
 
 	// Process quotes
@@ -73,12 +79,64 @@ func (c *MustacheTokenizer) ReadNextToken() *tokenizers.Token {
 	}
 
 	// Proces other tokens
+	// The body of a comment is plain text up to the closing braces: it is not tokenized,
+	// so quote characters in it do not start a quoted literal.
+	if c.comment {
+		c.comment = false
+		token := c.readCommentBody()
+		if token != nil {
+			return token
+		}
+	}
+
 	c.special = false
 	token := c.AbstractTokenizer.ReadNextToken()
-	// Switch to quote when '{{' or '{{{' symbols found
 	// Only the closing-brace symbols end a tag: a quoted literal decoded to "}}" does not
 	if token != nil && token.Type() == tokenizers.Symbol && (token.Value() == "}}" || token.Value() == "}}}") {
 		c.special = true
 	}
+	if token != nil && token.Type() == tokenizers.Symbol {
+		if token.Value() == "{{" || token.Value() == "{{{" {
+			c.commentAhead = c.commentFollows()
+		} else if token.Value() == "!" && c.commentAhead {
+			c.commentAhead = false
+			c.comment = true
+		}
+	}
 	return token
+}
+
+// commentFollows looks ahead in the text (options cannot influence it): do the opening
+// braces just read start a comment, i.e. is '!' the next character that is not a blank?
+func (c *MustacheTokenizer) commentFollows() bool {
+	count := 1
+	chr := c.Scanner.Read()
+	for chr >= 0 && chr <= ' ' {
+		chr = c.Scanner.Read()
+		count++
+	}
+	c.Scanner.UnreadMany(count)
+	return chr == '!'
+}
+
+// readCommentBody reads everything up to (not including) the next '}}' as one Special token.
+func (c *MustacheTokenizer) readCommentBody() *tokenizers.Token {
+	line := c.Scanner.PeekLine()
+	column := c.Scanner.PeekColumn()
+	body := strings.Builder{}
+	for {
+		chr := c.Scanner.Read()
+		if chr == -1 {
+			break
+		}
+		if chr == '}' && c.Scanner.Peek() == '}' {
+			c.Scanner.Unread()
+			break
+		}
+		body.WriteRune(chr)
+	}
+	if body.Len() == 0 {
+		return nil
+	}
+	return tokenizers.NewToken(tokenizers.Special, body.String(), line, column)
 }
